@@ -58,6 +58,9 @@ def main():
         elif a == '--scratch': scratch = True
         elif a == '--src': src = args.pop(0)
         elif a == '--tag': tag = args.pop(0) + '-'
+        elif a == '--scr':
+            global SCR
+            SCR = args.pop(0)
     if scratch:
         scratch_setup()
     elif sh('git -C /repo status --porcelain').stdout.strip():
